@@ -240,6 +240,32 @@ impl Family for Truncated {
     }
 }
 
+/// the same family, with every `every`-th program also getting the full-alphabet sweeps
+pub struct MoreSweeps {
+    pub base: Box<dyn Family>,
+    pub every: usize,
+}
+impl Family for MoreSweeps {
+    fn name(&self) -> String {
+        format!("{} (full-alphabet sweeps on every {}th program)", self.base.name(), self.every)
+    }
+    fn universe(&self) -> &Universe {
+        self.base.universe()
+    }
+    fn len(&self) -> usize {
+        self.base.len()
+    }
+    fn get(&self, i: usize) -> P {
+        self.base.get(i)
+    }
+    fn is_shallow(&self, i: usize) -> bool {
+        self.base.is_shallow(i) || i % self.every == 0
+    }
+    fn include(&self, i: usize) -> bool {
+        self.base.include(i)
+    }
+}
+
 /// every `stride`-th program of a family
 pub struct Strided {
     pub base: Box<dyn Family>,
@@ -312,7 +338,8 @@ pub fn families(kind: Kind, tier: Tier) -> Vec<Box<dyn Family>> {
         }
         (_, Tier::Thorough) => {
             v.push(Box::new(big_classics()));
-            v.push(Box::new(core_wide()));
+            // single-step sweeps over all 196608 characters on a stride of level 2 as well (C02, C03, C14 use them)
+            v.push(Box::new(MoreSweeps { base: Box::new(core_wide()), every: 4001 }));
             v.push(Box::new(core_thorough_extra()));
             v.push(Box::new(side_family(true)));
             v.push(Box::new(core_other_universe(1, true)));
